@@ -36,8 +36,8 @@ def ftypeOfName : String → Option FType
 /-- `split_type`: `(local, Some prefix)` when there is a colon (split once) -/
 def splitType (t : String) : String × Option String :=
   match t.splitOn ":" with
-  | [] => (t, none)
-  | [_] => (t, none)
+  | [] => (t, some "")
+  | [_] => (t, some "")   -- unprefixed: the default namespace (bound to the empty prefix), if any
   | p :: rest => (":".intercalate rest, some p)
 
 /-- `xml_name_to_rust_name` -/
@@ -178,8 +178,11 @@ def buildRestrictions (restriction : XNode) : Restr :=
 def getDoc : NM Doc := get
 def modifyDoc (f : Doc → Doc) : NM Unit := modify f
 
+/-- `find_namespace_by_abbreviation`: the empty prefix stands for the default namespace, which resolves
+    only when that namespace is known otherwise (it gets no abbreviation of its own) -/
 def lookupNs (d : Doc) (abbr : String) : Option Ns :=
-  (d.lookup.find? (fun kv => kv.1 == abbr)).map (·.2)
+  if abbr.isEmpty then d.defaultNs.bind (fun u => d.namespaces.find? (fun ns => ns.uri == u))
+  else (d.lookup.find? (fun kv => kv.1 == abbr)).map (·.2)
 
 /-- `resolve_type` -/
 def resolveType (d : Doc) (t : String) : String × Option Ns :=
@@ -208,6 +211,11 @@ def Doc.addNamespaceReference (d : Doc) (abbr url : String) : Doc :=
       let ns := mkNs url d.namespaces
       { d with lookup := d.lookup ++ [(abbr, ns)], namespaces := d.namespaces ++ [ns] }
 
+/-- `add_default_namespace` -/
+def Doc.addDefaultNamespace (d : Doc) (url : String) : Doc :=
+  if url.isEmpty || Tables.wellKnownNamespaces.contains url || d.defaultNs.isSome then d
+  else { d with defaultNs := some url }
+
 def addNamespaceReference (abbr url : String) : NM Unit :=
   modifyDoc fun d => d.addNamespaceReference abbr url
 
@@ -215,7 +223,7 @@ def addNamespaceReference (abbr url : String) : NM Unit :=
 def Doc.collectNamespaces (d : Doc) (nss : List (Option String × String)) : Doc :=
   nss.foldl (fun d pu => match pu.1 with
     | some a => d.addNamespaceReference a pu.2
-    | none => d) d
+    | none => d.addDefaultNamespace pu.2) d
 
 def collectNamespacesOnNode (node : XNode) : NM Unit :=
   modifyDoc fun d => d.collectNamespaces node.nss
